@@ -52,9 +52,13 @@ def o_inv(root, pre, op, res, extra):
     out = intro.check_inv(root)
     sig_suffix = ':' + op['kind'] if op else ''
     out = [(s + sig_suffix, d) for s, d in out]
-    if res and res[0] == 'ok' and op and op['kind'] in ('rep-pop', 'view-pop', 'rep-pop-insert') and isinstance(res[1], base.RawModel):
+    if res and res[0] == 'ok' and op and op['kind'] in ('rep-pop', 'view-pop', 'rep-pop-insert', 'meta-popkey') and isinstance(res[1], base.RawModel):
         x = res[1]
         if op['kind'] != 'rep-pop-insert':
+            try:
+                intro.pr(x)
+            except Exception as e:
+                out.append(('pop:returned-node-unprintable', f'the node returned by {op["kind"]} cannot be printed: {type(e).__name__}: {str(e)[:80]}'))
             if isinstance(x, base.RawTreeModel):
                 bad = intro.check_inv(x)
                 out += [('pop:' + s, d) for s, d in bad]
@@ -77,9 +81,15 @@ def o_refused(root, pre, op, res, extra):
     elif pre.struct is not None and intro.struct(root) != pre.struct:
         out.append((f'refused-changed-tree:{kind}:{res[1]}', f'{res[1]} raised by {kind} but the tree changed: ' +
                     str(intro.struct_diff(pre.struct, intro.struct(root)))))
+    elif [id(t) for t in root.token_store] != pre.tok_ids:
+        out.append((f'refused-moved-tokens:{kind}:{res[1]}', f'{res[1]} raised by {kind} but the token sequence of the document (zero-width marks included) is no longer the same'))
     bad = intro.check_inv(root)
     if bad:
         out.append((f'refused-broke-invariant:{kind}:{res[1]}:{bad[0][0]}', bad[0][1]))
+    for st, txt in extra.get('hosts', []):
+        if ''.join(t.raw_text for t in st) != txt:
+            out.append((f'refused-changed-host:{kind}:{res[1]}', f'{res[1]} raised by {kind} but the document the refused node lives in changed'))
+            break
     for v, txt in extra.get('donors', []):
         try:
             if intro.pr(v) != txt:
@@ -296,6 +306,15 @@ def reparse_struct(m):
     return strip(s)
 
 
+def _partial(v, st):
+    toks = list(st)
+    if not toks:
+        return False
+    if isinstance(v, base.RawTokenModel):
+        return len(toks) > 1
+    return v.first_token is not toks[0] or v.last_token is not toks[-1]
+
+
 def arg_info(root, op, prepared):
     """Free-standing donors (with their text) and attached arguments of a prepared op."""
     vals = []
@@ -308,7 +327,7 @@ def arg_info(root, op, prepared):
             vals.append(v)
     flat(prepared['val'])
     flat(prepared['args'])
-    donors, attached = [], []
+    donors, attached, hosts = [], [], []
     for v in vals:
         st = v.token_store
         if st is root.token_store:
@@ -319,12 +338,16 @@ def arg_info(root, op, prepared):
                 except Exception:
                     same = False
             attached.append((v, same))
+        elif st is not None and _partial(v, st):
+            # lives inside another document / a free-standing container without being all of it: attached elsewhere
+            attached.append((v, False))
+            hosts.append((st, ''.join(t.raw_text for t in st)))
         elif st is not None or isinstance(v, base.RawTokenModel):
             try:
                 donors.append((v, intro.pr(v) if not isinstance(v, base.RawTokenModel) else v.raw_text))
             except Exception:
                 pass
-    return {'donors': donors, 'attached_args': attached}
+    return {'donors': donors, 'attached_args': attached, 'hosts': hosts}
 
 
 def o_nonedit(root, pre, op, res, extra):
